@@ -124,7 +124,7 @@ class SweepStream(Stream):
     def cases(self, ctx):
         rng = ctx.rng_for("sweep")
         out = []
-        for i in range(ctx.scale(200, 1400)):
+        for i in range(ctx.scale(200, 3000)):
             r = rng.fork(f"{i}")
             out.append({"prog": lc.gen_prog(r, max_depth=r.choice([2, 3, 3, 4])), "seed": r.next() & 0xFFFFFF})
         return out
@@ -258,7 +258,7 @@ class GenStream(Stream):
         from ..gen.templates import gen_program
 
         rng = ctx.rng_for("gen")
-        return [gen_program(rng.fork(str(i))) for i in range(ctx.scale(260, 2000))]
+        return [gen_program(rng.fork(str(i))) for i in range(ctx.scale(260, 4000))]
 
     @staticmethod
     def run(prog, lim, is_async=False):
